@@ -93,6 +93,7 @@ const V_POWF: u8 = 16;
 const V_SIGMOID: u8 = 17;
 const V_SOFTMAX: u8 = 18;
 const V_COND: u8 = 19;
+const V_COST: u8 = 20;
 
 impl Gen {
     pub fn new(seed: u64, p: Profile) -> Gen {
@@ -122,7 +123,7 @@ impl Gen {
             vocab.push((V_CUSTOM, if p.custom_pct >= 50 { 120 } else { 12 }));
         }
         if regime == Regime::Smooth {
-            for (k, w) in [(V_DIV, 6), (V_RECIP, 3), (V_LN, 3), (V_EXP, 3), (V_POWF, 3), (V_SIGMOID, 4), (V_SOFTMAX, 4)] {
+            for (k, w) in [(V_DIV, 6), (V_RECIP, 3), (V_LN, 3), (V_EXP, 3), (V_POWF, 3), (V_SIGMOID, 4), (V_SOFTMAX, 4), (V_COST, 4)] {
                 if rng.chance(7, 10) {
                     vocab.push((k, w));
                 }
@@ -324,8 +325,9 @@ impl Gen {
         let x = self.any_live(sim).unwrap();
         let xd = Self::dims_of(sim, x);
         match k {
-            V_ADD | V_SUB | V_MUL | V_DIV | V_AXPY => {
+            V_ADD | V_SUB | V_MUL | V_DIV | V_AXPY | V_COST => {
                 let op = match k {
+                    V_COST => Op::Cost(if self.rng.chance(1, 2) { CostKind::Mse } else { CostKind::CrossEntropy }),
                     V_ADD => Op::Add,
                     V_SUB => Op::Sub,
                     V_MUL => Op::Mul,
@@ -353,7 +355,7 @@ impl Gen {
                         }
                     }
                 };
-                let args = if self.rng.chance(1, 2) { vec![x, y] } else { vec![y, x] };
+                let args = if self.rng.chance(1, 2) || matches!(op, Op::Cost(_)) { vec![x, y] } else { vec![y, x] };
                 let dst = self.dst_for(sim, &args);
                 out.push(Ev::Build { dst, op, args });
             }
@@ -494,7 +496,15 @@ impl Gen {
                         let coef: Vec<f64> = (0..n).map(|_| *self.rng.pick(&[1.0, 1.0, -1.0, 2.0, 0.5, -2.0])).map(|c| if self.p.integer_only && c == 0.5 { 3.0 } else { c }).collect();
                         (CustomKind::Lin, args, coef)
                     }
-                    1 => (if self.rng.chance(1, 3) { CustomKind::Prod2Crate } else { CustomKind::Prod2 }, vec![x, *self.rng.pick(&same)], vec![]),
+                    1 => (
+                        match self.rng.weighted(&[55, 25, 20]) {
+                            0 => CustomKind::Prod2,
+                            1 => CustomKind::Prod2Crate,
+                            _ => CustomKind::CrateFwdNoBwd,
+                        },
+                        vec![x, *self.rng.pick(&same)],
+                        vec![],
+                    ),
                     _ => (CustomKind::NestedSq, vec![x], vec![]),
                 };
                 let mut args = args;
@@ -603,9 +613,11 @@ impl Gen {
         let mut l = leaves.clone();
         self.rng.shuffle(&mut l);
         let want = 1 + self.rng.weighted(&[10, 20, 30, 20, 12, 8]);
+        let allow_alias = self.rng.chance(12, 100);
         for s in l {
-            // two handles of one node in one list would be two parameters sharing a gradient cell: not a modelled use
-            if seen_nodes.insert(sim.node_of(s).unwrap()) {
+            // two handles of one node in one list share one gradient cell: whichever comes first consumes
+            // the gradient, the later one then holds none and is left untouched (generated rarely)
+            if seen_nodes.insert(sim.node_of(s).unwrap()) || allow_alias {
                 uniq.push(s);
             }
             if uniq.len() >= want {
